@@ -8,7 +8,8 @@ from harness.drivers import c03
 chk = Check("C03X")
 cfg = {'shape': [2, 3, 2], 'hasw': True, 'op': 'cp', 'rank': [2], 'bad': 'none', 'at': 0, 'lens': [],
        'fshapes': [[2, 2], [3, 2], [2, 2]], 'wlen': 2, 'coreshape': [], 'pshapes': [], 'dl': 0, 'pden': 1, 'skip': -1, 'tr': False, 'modes': [],
-       'mix': 'none', 'dens': [1, 1, 1], 'cden': 1, 'imk': 0, 'outdtype': 'float64', 'dtypes': ['float64'] * 3}
+       'mix': 'none', 'dens': [1, 1, 1], 'cden': 1, 'imk': 0, 'outdtype': 'float64', 'dtypes': ['float64'] * 3,
+       'late': False, 'mag': 0, 'bfshapes': [], 'bcoreshape': [], 'bpshapes': [], 'bwlen': 0}
 ev = c03.execute({"id": "good", "cfg": cfg, "seed": 1, "k": 0, "draw": 0})
 evs = [ev]
 def mut(name, f):
@@ -38,11 +39,21 @@ e9 = c03.execute({"id": "mix_good", "cfg": cfg5, "seed": 1, "k": 0, "draw": 0});
 e10 = copy.deepcopy(e9); e10["id"] = "mix_imag_lost"; e10["runs"]["core_tuple"]["dense"]["im"] = [0] * len(e10["runs"]["core_tuple"]["dense"]["im"]); evs.append(e10)
 e11 = copy.deepcopy(e9); e11["id"] = "mix_dtype"; e11["runs"]["einsum_object"]["dtype"] = "float64"; evs.append(e11)
 e12 = copy.deepcopy(ev); e12["id"] = "seq_mutated"; e12["runs"]["core_object_seq"]["dense2"]["data"][0] += 1; evs.append(e12)
+cfg6 = dict(cfg4, skip=-1, late=True, bfshapes=[[3, 1], [2, 2], [2, 2]], bcoreshape=[1, 2, 2])     # Tucker (CP has F-03c)
+e13 = c03.execute({"id": "late_good", "cfg": cfg6, "seed": 1, "k": 0, "draw": 0}); evs.append(e13)
+e14 = copy.deepcopy(e13); e14["id"] = "late_stale_shape"; e14["runs"]["einsum_late"]["dense"]["shape"] = [3, 2, 2]; evs.append(e14)
+cfg7 = dict(cfg2, late=True, bfshapes=[[2, 2], [3, 2], [2, 2]], bwlen=2)
+e15 = c03.execute({"id": "late_inv_good", "cfg": cfg7, "seed": 1, "k": 0, "draw": 0})
+for rr in e15["runs"].values(): rr["rejected"] = True          # (on a tree with F-03c unfixed cp_norm returns: normalise the genuine event)
+evs.append(e15)
+e16 = copy.deepcopy(e15); e16["id"] = "late_inv_accepted"; e16["runs"]["einsum_late"]["rejected"] = False; evs.append(e16)
+cfg8 = dict(cfg, mag=-500)
+e17 = c03.execute({"id": "mag_good", "cfg": cfg8, "seed": 1, "k": 0, "draw": 0}); evs.append(e17)
 rej = chk.validate("FactorizedTrace", evs)
 for r in sorted(rej): print(r)
 print("machinery:", chk.machinery)
 ids = {r[0] for r in rej}
-good = {"good", "inv_good", "inv_p2_good", "opt_good", "mix_good"}
+good = {"good", "inv_good", "inv_p2_good", "opt_good", "mix_good", "late_good", "late_inv_good", "mag_good"}
 assert not chk.machinery and not (ids & good) and len(ids) == len(evs) - len(good), ("self-test failed", ids & good)
 print("OK: %d corrupted events rejected, %d genuine events accepted" % (len(ids), len(good)))
 shutil.rmtree(chk.work)
